@@ -42,6 +42,7 @@ theorem nonDir_cons_nondir {x : Q} (h : isDirective x = false) (r : List Q) : no
   simp [nonDir, List.filter_cons, h]
 theorem nonDir_cons_dir {x : Q} (h : isDirective x = true) (r : List Q) : nonDir (x :: r) = nonDir r := by
   simp [nonDir, List.filter_cons, h]
+theorem mem_of_mem_nonDir {x : Q} {l : List Q} (h : x ∈ nonDir l) : x ∈ l := (List.mem_filter.mp h).1
 theorem nonDir_append (a b : List Q) : nonDir (a ++ b) = nonDir a ++ nonDir b := by simp [nonDir]
 
 theorem lastCase_append : ∀ (a b : List Q) (k : B), lastCase (a ++ b) k = lastCase b (lastCase a k)
@@ -593,5 +594,213 @@ theorem group_sem (c : Corpus) (O : Oracle) (q : Qy) (its qs : List Q) (r : Q)
       exact repoLift_congr c _ _ hinner d
     · rw [if_neg h2, if_neg (fun h => h2 ((contains3_iff hv3).mp h))]
       exact hinner d hd
+
+/-! ### from the grammar tree to its items -/
+
+mutual
+/-- grammar trees for which the documented meaning is defined and the composition theorem is stated: no `regex:`
+    field (known finding: it is parsed as a bare pattern), `meta.` names without `:`, `type:` values among the four
+    documented ones, no `-` applied to a directive, at most one `type:` directive per group -/
+def semOKE : E → Bool
+  | .atom f _ _ _ n => f != .regex && !n.contains 58
+  | .caseD _ => true
+  | .typeD _ v => decide (v ≤ 3)
+  | .neg e => !isDirectiveE e && semOKE e
+  | .grp _ _ q => semOKQ q && decide ((typesOfQ q).length ≤ 1)
+def semOKC : Cj → Bool
+  | .one e => semOKE e
+  | .cons e r => semOKE e && semOKC r
+def semOKQ : Qy → Bool
+  | .one c => semOKC c
+  | .or c r => semOKC c && semOKQ r
+end
+
+theorem typesOfE_le (e : E) (h : semOKE e = true) : ∀ v ∈ typesOfE e, v ≤ 3 := by
+  cases e <;> simp_all [typesOfE, semOKE]
+
+theorem typesOfC_le : ∀ (c : Cj), semOKC c = true → ∀ v ∈ typesOfC c, v ≤ 3
+  | .one e, h => by simp only [semOKC] at h; simpa [typesOfC] using typesOfE_le e h
+  | .cons e r, h => by
+    simp only [semOKC, Bool.and_eq_true] at h
+    intro v hv
+    simp only [typesOfC, List.mem_append] at hv
+    rcases hv with hv | hv
+    · exact typesOfE_le e h.1 v hv
+    · exact typesOfC_le r h.2 v hv
+
+theorem typesOfQ_le : ∀ (q : Qy), semOKQ q = true → ∀ v ∈ typesOfQ q, v ≤ 3
+  | .one c, h => by simp only [semOKQ] at h; simpa [typesOfQ] using typesOfC_le c h
+  | .or c r, h => by
+    simp only [semOKQ, Bool.and_eq_true] at h
+    intro v hv
+    simp only [typesOfQ, List.mem_append] at hv
+    rcases hv with hv | hv
+    · exact typesOfC_le c h.1 v hv
+    · exact typesOfQ_le r h.2 v hv
+
+def ev0 (c : Corpus) (kE : B) (x : Q) : DocPred := evalQ c (setCase kE x)
+
+mutual
+theorem thmE (c : Corpus) (O : Oracle) (hO : AutoCaseAgrees O) : ∀ (e : E) (x : Q), itemE O e = .ok x → semOKE e = true →
+    isOrOp x = false ∧ DirOK [x] (caseOfE e) (typesOfE e) ∧ isDirective x = isDirectiveE e ∧
+    (isDirectiveE e = false → ∀ kE, validK kE → ∀ d, d < c.n → ev0 c kE x d = semE O c (modeOf kE) e d)
+  | .atom f a qd t n, x, hx, hok => by
+    simp only [semOKE, Bool.and_eq_true, bne_iff_ne, ne_eq, Bool.not_eq_true', List.contains_eq_mem,
+      decide_eq_false_iff_not] at hok
+    have h0 := atom_sem c hO f a qd t n x hok.1 hok.2 hx bAuto (Or.inr (Or.inr rfl))
+    refine ⟨h0.2.1, ?_, ?_, ?_⟩
+    · have : caseOfE (.atom f a qd t n) = fun m => m := by funext m; rfl
+      rw [this]
+      exact DirOK.plain h0.1
+    · rw [h0.1]; rfl
+    · intro _ kE hk d _
+      have := (atom_sem c hO f a qd t n x hok.1 hok.2 hx kE hk).2.2
+      simp only [ev0]
+      rw [this]
+  | .caseD fl, x, hx, hok => by
+    simp only [itemE, Outcome.ok.injEq] at hx
+    subst hx
+    refine ⟨rfl, ?_, rfl, ?_⟩
+    · have : caseOfE (.caseD fl) = fun _ => some (caseOfFlavor fl) := by funext m; rfl
+      rw [this]
+      exact DirOK.caseD fl
+    · intro h; simp [isDirectiveE] at h
+  | .typeD a v, x, hx, hok => by
+    simp only [itemE, Outcome.ok.injEq] at hx
+    subst hx
+    refine ⟨rfl, ?_, rfl, ?_⟩
+    · have : caseOfE (.typeD a v) = fun m => m := by funext m; rfl
+      rw [this]
+      exact DirOK.typeD v
+    · intro h; simp [isDirectiveE] at h
+  | .neg e, x, hx, hok => by
+    simp only [semOKE, Bool.and_eq_true, Bool.not_eq_true'] at hok
+    simp only [itemE] at hx
+    obtain ⟨y, hy, hx'⟩ := bind_eq_ok' hx
+    have hnd : isDirective y = false := by
+      cases hd : isDirective y with
+      | true => simp [hd] at hx'
+      | false => rfl
+    simp only [hnd, Bool.false_eq_true, if_false, Outcome.ok.injEq] at hx'
+    subst hx'
+    have ih := thmE c O hO e y hy hok.2
+    refine ⟨rfl, ?_, rfl, ?_⟩
+    · have : caseOfE (.neg e) = fun m => m := by funext m; rfl
+      rw [this]
+      exact DirOK.plain rfl
+    · intro _ kE hk d hd
+      have := ih.2.2.2 hok.1 kE hk d hd
+      simp only [ev0] at this
+      simp only [ev0, setCase, evalQ, semE, this]
+  | .grp pl pr q, x, hx, hok => by
+    simp only [semOKE, Bool.and_eq_true, decide_eq_true_eq] at hok
+    simp only [itemE] at hx
+    obtain ⟨its, hits, hx1⟩ := bind_eq_ok' hx
+    obtain ⟨qs, hqs, hpo⟩ := bind_eq_ok' hx1
+    obtain ⟨cs, hcs⟩ := parseOperators_shape hpo
+    have ih := thmOr c O hO q its hits hok.1
+    subst hcs
+    refine ⟨rfl, ?_, rfl, ?_⟩
+    · have : caseOfE (.grp pl pr q) = fun m => m := by funext m; rfl
+      rw [this]
+      exact DirOK.plain rfl
+    · intro _ kE hk d hd
+      have := group_sem c O q its qs (.or cs) ih.1 (typesOfQ_le q hok.1) hok.2 ih.2 hqs hpo (some kE)
+        (by simpa [keff] using hk) d hd
+      simpa [evO, applyK, ev0, keff, semE] using this
+theorem thmC (c : Corpus) (O : Oracle) (hO : AutoCaseAgrees O) : ∀ (cj : Cj) (xs : List Q), itemsC O cj = .ok xs →
+    semOKC cj = true →
+    (∀ x ∈ xs, isOrOp x = false) ∧ DirOK xs (caseOfC cj) (typesOfC cj) ∧
+    (∀ kE, validK kE → ∀ d, d < c.n → allEv (ev0 c kE) (nonDir xs) d = semC O c (modeOf kE) cj d)
+  | .one e, xs, hx, hok => by
+    simp only [semOKC] at hok
+    simp only [itemsC] at hx
+    obtain ⟨x, hx1, hx2⟩ := bind_eq_ok' hx
+    cases hx2
+    have ih := thmE c O hO e x hx1 hok
+    refine ⟨by simpa using ih.1, ?_, ?_⟩
+    · have : caseOfC (.one e) = caseOfE e := by funext m; rfl
+      rw [this]
+      exact ih.2.1
+    · intro kE hk d hd
+      cases hde : isDirectiveE e with
+      | true =>
+        have hdx : isDirective x = true := by rw [ih.2.2.1, hde]
+        rw [nonDir_cons_dir hdx]
+        cases e <;> simp_all [isDirectiveE, nonDir, allEv, semC, semE]
+      | false =>
+        have hdx : isDirective x = false := by rw [ih.2.2.1, hde]
+        rw [nonDir_cons_nondir hdx]
+        simp only [nonDir, List.filter_nil, allEv, Bool.and_true, semC]
+        exact ih.2.2.2 hde kE hk d hd
+  | .cons e r, xs, hx, hok => by
+    simp only [semOKC, Bool.and_eq_true] at hok
+    simp only [itemsC] at hx
+    obtain ⟨x, hx1, hx2⟩ := bind_eq_ok' hx
+    obtain ⟨xs', hxs, hx3⟩ := bind_eq_ok' hx2
+    cases hx3
+    have ih1 := thmE c O hO e x hx1 hok.1
+    have ih2 := thmC c O hO r xs' hxs hok.2
+    refine ⟨?_, ?_, ?_⟩
+    · intro y hy
+      simp only [List.mem_cons] at hy
+      rcases hy with rfl | hy
+      · exact ih1.1
+      · exact ih2.1 y hy
+    · have : caseOfC (.cons e r) = fun m => caseOfC r (caseOfE e m) := by funext m; rfl
+      rw [this]
+      exact DirOK.append (a := [x]) ih1.2.1 ih2.2.1
+    · intro kE hk d hd
+      have h2 := ih2.2.2 kE hk d hd
+      cases hde : isDirectiveE e with
+      | true =>
+        have hdx : isDirective x = true := by rw [ih1.2.2.1, hde]
+        rw [nonDir_cons_dir hdx, h2]
+        cases e <;> simp_all [isDirectiveE, semC, semE]
+      | false =>
+        have hdx : isDirective x = false := by rw [ih1.2.2.1, hde]
+        rw [nonDir_cons_nondir hdx]
+        simp only [allEv, semC, h2, ih1.2.2.2 hde kE hk d hd]
+theorem thmOr (c : Corpus) (O : Oracle) (hO : AutoCaseAgrees O) : ∀ (q : Qy) (its : List Q), itemsQ O q = .ok its →
+    semOKQ q = true →
+    DirOK its (caseOfQ q) (typesOfQ q) ∧
+    (∀ kE, validK kE → ∀ d, d < c.n →
+      itemsSem (fun x => evalQ c (setCase kE x)) (nonDir its) (fun _ => true) d = semOr O c (modeOf kE) q d)
+  | .one cj, its, hx, hok => by
+    simp only [semOKQ] at hok
+    simp only [itemsQ] at hx
+    have ih := thmC c O hO cj its hx hok
+    refine ⟨?_, ?_⟩
+    · have : caseOfQ (.one cj) = caseOfC cj := by funext m; rfl
+      rw [this]
+      exact ih.2.1
+    · intro kE hk d hd
+      rw [itemsSem_noOr _ _ _ d (fun x hx' => ih.1 x (mem_of_mem_nonDir hx'))]
+      simp only [Bool.true_and, semOr]
+      exact ih.2.2 kE hk d hd
+  | .or cj r, its, hx, hok => by
+    simp only [semOKQ, Bool.and_eq_true] at hok
+    simp only [itemsQ] at hx
+    obtain ⟨a, ha, hx2⟩ := bind_eq_ok' hx
+    obtain ⟨b, hb, hx3⟩ := bind_eq_ok' hx2
+    cases hx3
+    have ih1 := thmC c O hO cj a ha hok.1
+    have ih2 := thmOr c O hO r b hb hok.2
+    refine ⟨?_, ?_⟩
+    · have : caseOfQ (.or cj r) = fun m => caseOfQ r (caseOfC cj m) := by funext m; rfl
+      rw [this]
+      have hor : DirOK [Q.orOp] (fun m => m) [] := DirOK.plain rfl
+      have h1 := DirOK.append ih1.2.1 (DirOK.append hor ih2.1)
+      simpa [typesOfQ] using h1
+    · intro kE hk d hd
+      have hnd : nonDir (a ++ Q.orOp :: b) = nonDir a ++ Q.orOp :: nonDir b := by
+        rw [nonDir_append, nonDir_cons_nondir (by rfl)]
+      rw [hnd, itemsSem_append_or _ _ _ _ d (fun x hx' => ih1.1 x (mem_of_mem_nonDir hx'))]
+      simp only [Bool.true_and, semOr]
+      rw [ih2.2 kE hk d hd]
+      have := ih1.2.2 kE hk d hd
+      rw [← this]
+      rfl
+end
 
 end ZoektModel.C06
